@@ -21,6 +21,7 @@ from engine.cfg import expr_of
 from engine.facts import AnchorMissing
 from .C21 import check_mask_algebra, check_combination_table, Ref_to
 from .common import user_body, calls, name_of, has_name
+from .common import origin_has_call as origin_has
 
 LEVEL = "proof"
 EXPR = "lance-index/src/scalar/expression.rs"
@@ -222,6 +223,189 @@ def check_exact_indices(db, chk):
                    "search() of %s constructs SearchResult kinds %s (required: Exact only%s)" % (f.r.get("impl_self"), sorted(kinds), "" if kinds else "; delegates to an inner index"), f.loc())
 
 
+LOWER = {"Gt": "Excluded", "GtEq": "Included"}      # x OP v bounds x from below; the bound is inclusive iff OP is >=
+UPPER = {"Lt": "Excluded", "LtEq": "Included"}      # x OP v bounds x from above; inclusive iff OP is <=
+
+
+def _named_source(c, op, reach=None, depth=8):
+    """Name of the user variable an operand is a copy / borrow / clone of."""
+    from engine.cfg import op_place
+    p = op_place(op)
+    while p is not None and depth > 0:
+        depth -= 1
+        nm = c.fn.locals[p[0]].get("name")
+        if nm:
+            return nm
+        live = [df for df in c.defs.get(p[0], {"whole": []})["whole"] if reach is None or df[1] in reach]
+        if len(live) != 1:
+            return None
+        df = live[0]
+        if df[0] == "assign":
+            rv = df[3]["rv"]
+            p = rv.get("place") if rv["r"] == "ref" else (op_place(rv["op"]) if rv["r"] == "use" else None)
+        elif df[0] == "call" and has_name(df[2], "Clone>::clone", "::clone", "::to_owned"):
+            p = op_place(df[2]["args"][0])
+        else:
+            return None
+    return None
+
+
+def _bound_built(c, op, reach):
+    """(variant, named source of its payload) of the std::ops::Bound an operand holds, using only definitions in `reach`."""
+    from engine.cfg import op_place
+    p = op_place(op)
+    if p is None:
+        return None
+    live = [df for df in c.defs.get(p[0], {"whole": []})["whole"] if df[1] in reach]
+    if len(live) != 1 or live[0][0] != "assign":
+        return None
+    rv = live[0][3]["rv"]
+    if rv["r"] == "use":
+        return _bound_built(c, rv["op"], reach)
+    if rv["r"] == "agg" and (rv.get("adt") or "").endswith("ops::Bound"):
+        return (rv["variant"], _named_source(c, rv["ops"][0], reach) if rv["ops"] else None)
+    return None
+
+
+def check_range_translation(db, chk):
+    """The comparison -> index-range translation, checked against the meaning of the operators (not against a stored copy):
+    for `x OP1 a AND x OP2 b` the lower bound is the value of the >/>= side, inclusive iff that operator is >=, and the
+    upper bound the value of the </<= side, inclusive iff it is <=; two bounds on the same side are not a range."""
+    from engine.cfg import op_place
+    R = "TABLE-range-translation"
+    chk.rule(R, "maybe_range / visit_comparison / visit_between translate comparison operators into the Bound kinds and sides they mean")
+    f = db.one(r"^scalar::expression::maybe_range$", file=EXPR)
+    chk.analysed(f)
+    c = f.cfg
+    ops_sw = [b for b in sorted(c.reach0) if c.switch_info(b) and c.switch_info(b)["kind"] == "enum" and
+              (c.switch_info(b)["adt"] or "").endswith("Operator") and c.switch_info(b)["place"] and len(c.switch_info(b)["place"]) == 2]
+    top = [b for b in ops_sw if c.switch_info(b)["place"][1].get("f") == "0"]
+    snd = [b for b in ops_sw if c.switch_info(b)["place"][1].get("f") == "1"]
+    if len(top) != 1 or not snd:
+        raise AnchorMissing("maybe_range: match on (left_expr.op, right_expr.op) not found (%d/%d)" % (len(top), len(snd)))
+    vb = calls(f, "visit_between")
+    if len(vb) != 1:
+        raise AnchorMissing("maybe_range: expected one visit_between call, found %d" % len(vb))
+    lo = [i for i, l in enumerate(f.locals) if l.get("name") == "low"]
+    hi = [i for i, l in enumerate(f.locals) if l.get("name") == "high"]
+    chk.ob(R, "maybe_range:passes-low-high", _named_source(c, vb[0][1]["args"][2]) == "low" and _named_source(c, vb[0][1]["args"][3]) == "high",
+           "visit_between(column, &low, &high) in that order", f.loc(vb[0][1]["ln"]))
+    n_tr = 0
+    for o1 in ("Lt", "LtEq", "Gt", "GtEq"):
+        for o2 in ("Lt", "LtEq", "Gt", "GtEq"):
+            def ef(b, o1=o1, o2=o2):
+                if b == top[0]:
+                    return [c.switch_info(b)["label_to"][o1]]
+                if b in snd:
+                    si = c.switch_info(b)
+                    return [si["label_to"].get(o2, c.blocks[b]["term"]["else"])]
+                return None
+            reach = c.reachable_from([0], include_start=True, edge_filter=ef)
+            translated = vb[0][0] in reach
+            same_side = (o1 in LOWER) == (o2 in LOWER)
+            key = "maybe_range:%s,%s" % (o1, o2)
+            if same_side:
+                chk.ob(R, key, not translated, "`x %s a AND x %s b` bounds x twice from the same side: not a range (translated: %s)" % (o1, o2, translated), f.loc())
+                continue
+            if not translated:
+                chk.info("maybe_range declines (%s, %s): handled as two separate comparisons" % (o1, o2))
+                continue
+            n_tr += 1
+            # the (low, high) tuple live in this arm
+            tup = [s for i, j, s in c.stmts() if i in reach and (s.get("rv") or {}).get("r") == "agg" and not s["rv"].get("adt") and
+                   not s["rv"].get("closure") and len(s["rv"]["ops"]) == 2]
+            tup = [s for s in tup if all(_bound_built(c, o, reach) for o in s["rv"]["ops"])]
+            if len(tup) != 1:
+                chk.ob(R, key, False, "could not isolate the (low, high) pair built for (%s, %s): %d candidates" % (o1, o2, len(tup)), f.loc())
+                continue
+            low = _bound_built(c, tup[0]["rv"]["ops"][0], reach)
+            high = _bound_built(c, tup[0]["rv"]["ops"][1], reach)
+            lower_is_left = o1 in LOWER
+            want_low = (LOWER[o1 if lower_is_left else o2], "left_value" if lower_is_left else "right_value")
+            want_high = (UPPER[o2 if lower_is_left else o1], "right_value" if lower_is_left else "left_value")
+            chk.ob(R, key, low == want_low and high == want_high,
+                   "`x %s a AND x %s b` (a = left_value, b = right_value) is translated to low=%s(%s), high=%s(%s); the operators mean low=%s(%s), high=%s(%s)" % (
+                       o1, o2, low[0], low[1], high[0], high[1], want_low[0], want_low[1], want_high[0], want_high[1]), f.loc(tup[0]["ln"]))
+    chk.floor(R, "operator pairs translated by maybe_range", n_tr, 8)
+    # left_value / right_value really are the literals of the left / right comparison
+    for nm, side, other in (("left_value", "left_expr", "right_expr"), ("right_value", "right_expr", "left_expr")):
+        ls = [i for i, l in enumerate(f.locals) if l.get("name") == nm]
+        sv = [i for i, l in enumerate(f.locals) if l.get("name") == side]
+        ov = [i for i, l in enumerate(f.locals) if l.get("name") == other]
+        ok = bool(ls) and bool(sv) and bool(ov)
+        if ok:
+            ok = False
+            for b, t in calls(f, "expression::maybe_scalar"):
+                if not (t.get("dest") and _derives(c, ls[0], t["dest"][0])):
+                    continue
+                a0 = op_place(t["args"][0])
+                o0 = c.op_origins(t["args"][0], transparent=lambda t: True)
+                ok = a0 is not None and ("field", "right") in o0 and _derives(c, a0[0], sv[0]) and not _derives(c, a0[0], ov[0])
+        chk.ob(R, "maybe_range:%s" % nm, ok, "%s = maybe_scalar(&%s.right, ..): the literal of that comparison, not of %s" % (nm, side, other), f.loc())
+
+    # single comparisons
+    g = db.one(r"SargableQueryParser as scalar::expression::ScalarQueryParser>::visit_comparison$", file=EXPR)
+    chk.analysed(g)
+    gc = g.cfg
+    sw = [b for b in sorted(gc.reach0) if gc.switch_info(b) and gc.switch_info(b)["kind"] == "enum" and (gc.switch_info(b)["adt"] or "").endswith("Operator")]
+    if len(sw) != 1:
+        raise AnchorMissing("visit_comparison: match on Operator not found")
+    si = gc.switch_info(sw[0])
+    for o in ("Lt", "LtEq", "Gt", "GtEq", "Eq", "NotEq"):
+        tgt = si["label_to"].get(o)
+        others = {t for t in si["label_to"].values() if t != tgt}
+        reach = gc.reachable_from([tgt], include_start=True, avoid=others) | {b for b in gc.reach0 if gc.dominates(b, sw[0])}
+        qs = [s for i, j, s in gc.aggregates() if i in reach and gc.dominates(tgt, i) and (s["rv"].get("adt") or "").endswith("SargableQuery")]
+        if len(qs) != 1:
+            chk.ob(R, "visit_comparison:%s" % o, False, "%d SargableQuery values built in the %s arm" % (len(qs), o), g.loc())
+            continue
+        rv = qs[0]["rv"]
+        if o in ("Eq", "NotEq"):
+            chk.ob(R, "visit_comparison:%s" % o, rv["variant"] == "Equals" and _named_source(gc, rv["ops"][0], reach) == "value",
+                   "`x %s v` -> %s(%s)%s" % ("=" if o == "Eq" else "<>", rv["variant"], _named_source(gc, rv["ops"][0], reach), " (negated by the caller)" if o == "NotEq" else ""), g.loc(qs[0]["ln"]))
+            continue
+        if rv["variant"] != "Range":
+            chk.ob(R, "visit_comparison:%s" % o, False, "`x %s v` -> %s" % (o, rv["variant"]), g.loc(qs[0]["ln"]))
+            continue
+        low = _bound_built(gc, rv["ops"][0], reach)
+        high = _bound_built(gc, rv["ops"][1], reach)
+        want_low = (LOWER[o], "value") if o in LOWER else ("Unbounded", None)
+        want_high = (UPPER[o], "value") if o in UPPER else ("Unbounded", None)
+        chk.ob(R, "visit_comparison:%s" % o, low == want_low and high == want_high,
+               "`x %s v` -> Range(%s, %s); the operator means Range(%s, %s)" % (o, low, high, want_low, want_high), g.loc(qs[0]["ln"]))
+    # between keeps the sides
+    h = db.one(r"SargableQueryParser as scalar::expression::ScalarQueryParser>::visit_between$", file=EXPR)
+    chk.analysed(h)
+    hc = h.cfg
+    qs = [s for i, j, s in hc.aggregates() if (s["rv"].get("adt") or "").endswith("SargableQuery") and s["rv"]["variant"] == "Range"]
+    ok = len(qs) == 1 and _named_source(hc, qs[0]["rv"]["ops"][0]) == "low" and _named_source(hc, qs[0]["rv"]["ops"][1]) == "high"
+    chk.ob(R, "visit_between:sides", ok, "visit_between builds Range(low.clone(), high.clone())", h.loc(qs[0]["ln"]) if qs else h.loc())
+
+
+def _derives(c, start, target, limit=60):
+    seen, work = set(), [start]
+    from engine.cfg import op_place
+    while work and len(seen) < limit:
+        l = work.pop()
+        if l == target:
+            return True
+        if l in seen:
+            continue
+        seen.add(l)
+        for df in c.defs.get(l, {"whole": []})["whole"]:
+            if df[0] == "assign":
+                rv = df[3]["rv"]
+                p = rv.get("place") if rv["r"] == "ref" else (op_place(rv["op"]) if rv["r"] == "use" else None)
+                if p:
+                    work.append(p[0])
+            elif df[0] == "call":
+                for a in df[2]["args"]:
+                    p = op_place(a)
+                    if p:
+                        work.append(p[0])
+    return False
+
+
 def _delegates(f):
     return any(has_name(t, "ScalarIndex>::search", "ScalarIndex::search", "::search") for k in f.family() for _, t in k.cfg.calls())
 
@@ -232,6 +416,7 @@ def run(db, chk):
     check_combination_table(db, chk)
     check_planner_tables(db, chk)
     check_null_guards(db, chk)
+    check_range_translation(db, chk)
     check_exact_indices(db, chk)
     chk.extra["exhaustive"] = True
     chk.info("sibling parsers without NULL guards (LabelListQueryParser; BloomFilterQueryParser always rechecks) are deviations listed for review, not violations")
